@@ -23,6 +23,8 @@ pub enum Cop {
 	F,
 	C,
 	O,
+	/// begin a read transaction that stays open (its view must not move with later commits)
+	B,
 }
 
 fn cop_str(c: &Cop) -> String {
@@ -31,6 +33,7 @@ fn cop_str(c: &Cop) -> String {
 		Cop::F => "F".into(),
 		Cop::C => "C".into(),
 		Cop::O => "O".into(),
+		Cop::B => "B".into(),
 	}
 }
 
@@ -58,6 +61,7 @@ impl Case {
 					"F" => Cop::F,
 					"C" => Cop::C,
 					"O" => Cop::O,
+					"B" => Cop::B,
 					w => {
 						let (k, key) = w.split_once('(').unwrap();
 						let key = key.trim_end_matches(')');
@@ -112,6 +116,10 @@ fn apply(w: &mut World, c: &Cop, n: &mut usize) -> Result<Option<(String, String
 		}
 		Cop::F => w.physical(Phys::FlushAll)?,
 		Cop::C => w.physical(Phys::Compact)?,
+		Cop::B => {
+			w.drop_reader(0);
+			w.begin_reader(0, surrealkv::Mode::ReadOnly)?;
+		}
 		Cop::O => {
 			if std::env::var("VERIF_DEBUG").is_ok() {
 				let _ = w.close();
@@ -253,7 +261,7 @@ pub fn check(tier: Tier) -> i32 {
 	let budget = Budget::new(if tier == Tier::Quick { 50.0 } else { 600.0 });
 	let (m, p) = if tier == Tier::Quick { (2, 3) } else { (3, 3) };
 	let mid_alpha = vec![Cop::W(Kind::Set, b"a"), Cop::W(Kind::Delete, b"b"), Cop::F, Cop::C];
-	let post_alpha = vec![Cop::W(Kind::Set, b"a"), Cop::W(Kind::Set, b"b"), Cop::F, Cop::C, Cop::O];
+	let post_alpha = vec![Cop::W(Kind::Set, b"a"), Cop::W(Kind::Set, b"b"), Cop::F, Cop::C, Cop::O, Cop::B];
 	let mut cases = vec![];
 	for pre in 0..3 {
 		for mid in seqs(&mid_alpha, m) {
